@@ -87,6 +87,18 @@ Theorem hist_tie_c18_known_only : forall h na, h_n h = Some na -> c18_hist_verdi
     known_C18 (c18_input (h_mode h) na c) = true.
 Proof. exact hist_c18_known_only. Qed.
 
+(* Non-vacuity: a recorded four-cycle history (creation, twin deletion,
+   manager restart, re-creation, one quiescent step) passes every check; a
+   recorded history with one non-preserving wrapper and Docker-style ignores
+   has its only failing cycle in the known class. *)
+Example hist_tie_nontrivial :
+  wf_hist ex_hist = true /\ plain_hist ex_hist = true /\ corr_hist ex_hist = true
+  /\ check_hist_c05 ex_hist = true /\ check_hist_c01 ex_hist = true /\ check_hist_c04 ex_hist = true
+  /\ List.length (h_cycles ex_hist) = 4 /\ quiet_steps (h_cycles ex_hist) = 1
+  /\ wf_hist ex_hist_n = true /\ check_hist_c04 ex_hist_n = true /\ c18_hist_verdict ex_hist_n = 6
+  /\ map (c18_cycle_verdict (h_mode ex_hist_n) true) (h_cycles ex_hist_n) = [0; 0; 6; 0].
+Proof. exact ex_hist_passes. Qed.
+
 Print Assumptions hist_tie_c05_disk.
 Print Assumptions hist_tie_c05_early.
 Print Assumptions hist_tie_c05_faithful.
@@ -95,3 +107,4 @@ Print Assumptions hist_tie_c04.
 Print Assumptions hist_tie_c04_quiet.
 Print Assumptions hist_tie_c18.
 Print Assumptions hist_tie_c18_known_only.
+Print Assumptions hist_tie_nontrivial.
